@@ -379,7 +379,17 @@ impl ChunkDeserializer {
         message_to_return: &mut Option<MessagePayload>,
     ) -> Result<ParseStageResult, ChunkDeserializationError> {
         let current_payload_length = self.current_payload_data.len();
-        let remaining_bytes = self.current_header.message_length as usize - current_payload_length;
+        let message_length = self.current_header.message_length as usize;
+        if current_payload_length > message_length {
+            // A header in the middle of a message announced a length that is smaller than
+            // what was already received for that message
+            return Err(ChunkDeserializationError::InvalidMessageLength {
+                csid: self.current_header.chunk_stream_id,
+                message_length: self.current_header.message_length,
+            });
+        }
+
+        let remaining_bytes = message_length - current_payload_length;
         let length = min(remaining_bytes, self.max_chunk_size as usize);
 
         if self.buffer.len() < length {
